@@ -49,6 +49,13 @@ def gen_base(rng, tier, index):
                 "calls": [{"ordered": True, "n": 6, "chunk": 1, "form": "list",
                            "durations": {"mode": "slow_chunk", "t": t, "chunk": 5, "phase": 0, "nchunks": 6}},
                           {"ordered": True, "n": 3, "chunk": 1, "form": "gen", "durations": {"mode": "all", "t": t}}]}
+    if index in (6, 9) or (tier == "thorough" and index % 40 in (6, 9)):
+        # workers that are held up for longer than a second (descheduled, swapped out) at any point of their loop, also after
+        # their last result: a later call on the same queues still gets all its results
+        kind = "mulpmap" if index % 40 == 6 else "fmap"
+        return {"kind": kind, "pool": kind, "workers": 1 if (index // 40) % 2 == 0 and kind == "mulpmap" else 2, "limit_factor": 2,
+                "long_delay": 1.3 if tier == "quick" else rng.choice([1.3, 2.4]), "budget_s": 200,
+                "calls": [{"ordered": True, "n": 4, "chunk": 1, "form": "list"}, {"ordered": True, "n": 3, "chunk": 1, "form": "gen"}]}
     kind = "mulpmap" if index % 3 == 2 else "fmap"
     workers = rng.choice([1, 2, 2, 3, 4, 5])
     ncalls = rng.randint(1, 4) if kind == "fmap" else rng.randint(1, 3)
@@ -91,6 +98,10 @@ def gen_base(rng, tier, index):
         # "everything in one chunk" spelled as a huge chunk size; an input whose length hint is too large
         calls[0].update(chunk=calls[0]["n"] + 5, chunk_special=["maxsize", "huge", "inf"][(index // 16 + index) % 3], form="hinted")
         calls[0].pop("durations", None)
+    if index % 16 == 2 and calls:
+        # an input whose __length_hint__ over-estimates, through mul_p_map (base 2) as well
+        calls[0].update(form="hinted", n=max(calls[0]["n"], 5))
+        calls[0].pop("slow", None)
     forced = {1: ("fmap", {"result_size": 200_000}), 5: ("mulpmap", {"result_size": 200_000}), 11: ("mulpmap", {"exc_results": True}),
               8: ("mulpmap", {"twins": True})}.get(index % 16)
     if forced and forced[0] == kind:
